@@ -5,6 +5,7 @@ import (
 
 	"verif/explore"
 	h "verif/harness"
+	u "verif/universe"
 )
 
 // C17 — DryRun executes nothing but validates the same (style D: product of a
@@ -63,6 +64,28 @@ func c17Units(tier string) []Unit {
 			Alphabet: ring.ops(), Depth: depth, Budget: bud, Allowed: onceEach,
 			Monitors: []explore.Monitor{dryMonitor},
 		}})
+		// value groups whose decorator does not (hard-)consume the group, feeders
+		// with a missing dependency, As-provided interfaces taken positionally
+		grp := alpha{scopes: []int{0, 1}, ctors: []*uFunc{fG1, fGmiss}, decos: []*uFunc{dG, dG0, dGsoft}, invokes: []*uFunc{iG, iGs}}
+		units = append(units, Unit{Sc: &Scenario{
+			Name: fmt.Sprintf("dry/groups/defer=%v", def), Cfg: h.Config{Dry: true, Defer: def}, Prefix: prefixChild,
+			Alphabet: grp.ops(), Depth: depth, Budget: explore.Budget{Provides: 2, Decorates: 2, Invokes: 2, Rejected: 1}, Allowed: onceEach,
+			Monitors: []explore.Monitor{dryMonitor},
+		}})
+		as := alpha{scopes: []int{0, 1}, ctors: []*uFunc{kAasI, kAasII, kIplain, pCia}, export: true, decos: []*uFunc{dIA}, invokes: []*uFunc{qI, qII, qIn, iC}}
+		units = append(units, Unit{Sc: &Scenario{
+			Name: fmt.Sprintf("dry/as/defer=%v", def), Cfg: h.Config{Dry: true, Defer: def}, Prefix: prefixChild,
+			Alphabet: as.ops(), Depth: depth, Budget: explore.Budget{Provides: 3, Decorates: 1, Invokes: 2, Rejected: 1}, Allowed: onceEach,
+			Monitors: []explore.Monitor{dryMonitor},
+		}})
 	}
 	return units
 }
+
+var (
+	fGmiss = u.F("fGmiss", "D", "A", u.Group("g")) // group member whose dependency D nobody provides
+	dG0    = u.F("dG0", "", "{[A]!1+g}")           // group decorator that does not consume the group
+	dGsoft = u.F("dGsoft", "{A*g~}", "{[A]!1+g}")  // group decorator with a soft view of the group
+	pCia   = u.F("pCia", "IA", "C")                // constructor taking the interface positionally
+	dIA    = u.F("dIA", "IA", "IA")                // decorator of the interface key
+)
